@@ -72,15 +72,31 @@ def check_history(cfg, ops, remount_every=1, want=None, stop_on_first=False):
                             add(["C01"], "enospc-spurious", "%s refused with %d free clusters, needs <= %d" % (opkind(op), freec, need), i)
                 except specfat.FatError as e:
                     add(["C04"], "image-unreadable", str(e), i)
-                # C09: nothing may have changed
+                # C09: nothing may have changed — at the level of the primitive that failed: the
+                # compound helpers of fs.base create/truncate their target before the write that
+                # fails, so two outcomes are legitimate: tree unchanged (the create step failed), or
+                # the target exists and is empty (the write step failed)
                 try:
                     now = walk_fs(w.fs)
                     refw = walk_fs(w.ref)
                     d = diff_walks(refw, now, "ref", "live")
                     if d:
+                        alt = None
+                        if op[0] == "writebytes":
+                            alt = ["writebytes", op[1], 0, 0]
+                        elif op[0] == "appendbytes":
+                            alt = ["appendbytes", op[1], 0, 0]
+                        elif op[0] in ("copy", "move") and w.ref.isfile(op[1]):
+                            alt = ["writebytes", op[2], 0, 0]
+                        if alt is not None:
+                            run_op(w.ref, alt)
+                            d = diff_walks(walk_fs(w.ref), now, "ref", "live")
+                    if d:
                         add(["C09", "C01"], "failed-op-changed-tree", "%s failed with ENOSPC but %s" % (opkind(op), d[:3]), i)
+                        break
                 except Exception as e:  # noqa
                     add(["C09", "C01"], "failed-op-wedged", "%s after failed %s" % (common.exc_class(e), opkind(op)), i)
+                    break
                 continue
             exp = run_op(w.ref, op, w.rhandles)
             if got != exp:
@@ -165,29 +181,39 @@ def check_history(cfg, ops, remount_every=1, want=None, stop_on_first=False):
     return findings, stats
 
 
-def shrink(cfg, ops, kind, budget=120):
-    """greedy one-at-a-time deletion while a finding of the same kind remains"""
+def shrink(cfg, ops, kind, budget=120, seconds=40):
+    """ddmin-style: drop chunks (halving the chunk size) while a finding of the same kind remains"""
+    import time
     want = {kind}
+    t0 = time.time()
+    tries = [0]
 
     def bad(o):
+        tries[0] += 1
         try:
-            f, _ = check_history(cfg, o, want=want)
+            f, _ = check_history(cfg, o, remount_every=1 if kind.startswith("remount") else 0, want=want, stop_on_first=False)
         except Exception:  # noqa
             return False
         return any(x.kind == kind for x in f)
     cur = list(ops)
-    tries = 0
-    changed = True
-    while changed and tries < budget:
-        changed = False
-        i = len(cur) - 1
-        while i >= 0 and tries < budget:
-            cand = cur[:i] + cur[i + 1:]
-            tries += 1
-            if bad(cand):
+    chunk = max(1, len(cur) // 2)
+    while chunk >= 1:
+        i = 0
+        progressed = False
+        while i < len(cur):
+            if tries[0] >= budget or time.time() - t0 > seconds:
+                return cur
+            cand = cur[:i] + cur[i + chunk:]
+            if cand and bad(cand):
                 cur = cand
-                changed = True
-            i -= 1
+                progressed = True
+            else:
+                i += chunk
+        if chunk == 1 and not progressed:
+            break
+        chunk = max(1, chunk // 2) if chunk > 1 else (1 if progressed else 0)
+        if chunk == 0:
+            break
     return cur
 
 
